@@ -88,7 +88,10 @@ class RefStream:
 
 
 def run_real(MT, start, seq, other=None):
-    s = MT(start)
+    # start None: the documented no-seed construction (the stream picks a
+    # seed itself and reports it through seed())
+    s = MT() if start is None else MT(start)
+    run_real.first_seed = s.seed()
     out = []
     slot = None
     for op in seq:
@@ -121,6 +124,10 @@ def check_seq(MT, start, seq):
         a, sa = run_real(MT, start, seq)
     except Exception as ex:  # noqa
         return [("raised", type(ex).__name__, str(ex)[:80])]
+    if start is None:
+        start = run_real.first_seed
+        if type(start) is not int:
+            return [("unseeded-stream-reports-no-seed", start)]
     ref = RefStream(MT, start)
     for i, op in enumerate(seq):
         e = ref.apply(op)
@@ -234,6 +241,44 @@ def double_restore_family():
     return n, bad
 
 
+def default_streams():
+    """the 'default' stream every StreamInformation creates for itself: each
+    instance owns one, all start from the same documented seed, and using or
+    re-seeding one leaves the others alone"""
+    from pydsol.core.streams import (StreamInformation, StreamSeedInformation,
+                                     MersenneTwister)
+    bad = []
+    n = 0
+    OPS = [("f",), ("i", -5, 5), ("b",), ("i", 0, 2 ** 62), ("f",)]
+    for cls_a in (StreamInformation, StreamSeedInformation):
+        for cls_b in (StreamInformation, StreamSeedInformation):
+            for disturb in ("draw", "set_seed", "reset", "nothing"):
+                n += 1
+                a = cls_a()
+                sa = a.get_stream("default")
+                first = [draw(sa, op) for op in OPS]
+                seed0 = sa.original_seed()
+                if disturb == "draw":
+                    [draw(sa, op) for op in OPS]
+                elif disturb == "set_seed":
+                    sa.set_seed(4711)
+                elif disturb == "reset":
+                    sa.reset()
+                b = cls_b()
+                sb = b.get_stream("default")
+                got = [draw(sb, op) for op in OPS]
+                sf = MersenneTwister(seed0)
+                fresh = [draw(sf, op) for op in OPS]
+                if sb is sa:
+                    bad.append(("default-stream-shared", cls_a.__name__,
+                                cls_b.__name__))
+                elif got != first or got != fresh:
+                    bad.append(("default-stream-depends-on-earlier-instances",
+                                cls_a.__name__, cls_b.__name__, disturb, got,
+                                first))
+    return n, bad
+
+
 def scripted_range():
     """own the uniform: replace the wrapped generator by a scripted one (only
     if the documented wrapping attribute exists)"""
@@ -296,6 +341,9 @@ def run(ctx):
     if ctx.seed:
         starts = list(starts) + [1000003 * ctx.seed + 17]
     tasks = [(a, L, starts) for a in alphabet()]
+    # a stream constructed without a seed is as reproducible (through the seed
+    # it reports) as a seeded one
+    tasks += [(a, L - 1, [None]) for a in alphabet()]
     total = 0
     for r in common.pimap(worker, tasks):
         total += r["n"]
@@ -314,6 +362,12 @@ def run(ctx):
             b[1], b[2]), {"start": 101, "ops": b[1]}, rank=len(b[1]))
     ctx.part("double-restore histories (length 6-10)", sequences=n)
     total += n
+    nd, bad = default_streams()
+    for b in bad:
+        ctx.violation("C12:%s" % b[0], "default streams: %s" % (b,),
+                      {"default": True})
+    ctx.part("default streams of stream-information objects", cases=nd)
+    total += nd
     n, bad, ok = scripted_range()
     ctx.part("scripted uniforms x ranges", cases=n, applied=ok,
              violations=len(bad))
@@ -340,6 +394,8 @@ def run(ctx):
 
 
 def replay(data):
+    if data.get("default"):
+        return default_streams()[1][:3] or None
     if data.get("scripted"):
         n, bad, ok = scripted_range()
         return bad[:3] or None
